@@ -61,11 +61,17 @@ type ctx struct {
 	impl  *bufio.Writer
 	n     int
 	hist  map[string]int // input-distribution histogram, written to <stream>.dist
+	// deferred: the operations are executed by another binary (the pkg/http2 test harness); only
+	// the .ops file is meaningful.
+	deferred bool
 }
 
 // op executes one operation against the implementation and records both.
 func (c *ctx) op(line string) string {
-	impl := execOp(line)
+	impl := "DEFERRED"
+	if !c.deferred {
+		impl = execOp(line)
+	}
 	c.ops.WriteString(line)
 	c.ops.WriteByte('\n')
 	c.impl.WriteString(impl)
